@@ -113,6 +113,12 @@ pub fn replay(args: &[String]) {
             }
             if kind == "remove" {
                 let _ = if is_dir { std::fs::remove_dir_all(&p) } else { std::fs::remove_file(&p) };
+                if !p.parent().map_or(false, |q| q.is_dir()) {
+                    // this spelling goes through the removed directory itself: once it is gone the path no longer
+                    // resolves, so no notification can carry it
+                    skipped += 1;
+                    continue;
+                }
             }
             // 1. id_of_path on the reported path
             if kind != "remove" {
@@ -325,6 +331,43 @@ pub fn real(args: &[String]) {
             drop(rx);
             let _ = std::fs::remove_file(&link);
         }
+    }
+    // several roots given to ONE builder, the later ones inside / outside the first: every root is a prefix
+    // reported paths are translated against, whatever the order they were added in (Watcher.tla: EventsFor over Roots)
+    {
+        let other = root.parent().unwrap().join(format!("watchother-{}", std::process::id()));
+        std::fs::create_dir_all(&other).unwrap();
+        let other = other.canonicalize().unwrap();
+        for (label, order) in [("outer root first", vec![root.clone(), root.join("sub"), other.clone()]),
+                               ("inner root first", vec![root.join("sub"), other.clone(), root.clone()])] {
+            let (tx, rx) = w::test_channel();
+            let mut b = FsWatcherBuilder::new().expect("watcher");
+            for r in order.iter() {
+                b.watch(r.clone()).expect("watch");
+            }
+            b.build(tx);
+            std::thread::sleep(std::time::Duration::from_millis(200));
+            for (what, path, must) in [("a change below two nested roots", root.join("sub").join("two.x"), vec!["file:sub.two:x", "file:two:x"]),
+                                       ("a change below a disjoint root", other.join("o.x"), vec!["file:o:x"])] {
+                rep.cases += 1;
+                std::fs::write(&path, b"v1").unwrap();
+                let deadline = std::time::Instant::now() + std::time::Duration::from_secs(3);
+                let mut seen: BTreeSet<String> = BTreeSet::new();
+                while std::time::Instant::now() < deadline && !must.iter().all(|m| seen.contains(*m)) {
+                    for x in rx.drain().into_iter().flatten() {
+                        seen.insert(ent_json(&x));
+                    }
+                    std::thread::sleep(std::time::Duration::from_millis(20));
+                }
+                let missing: Vec<&str> = must.iter().filter(|m| !seen.contains(**m)).cloned().collect();
+                if !missing.is_empty() {
+                    rep.mismatch(json!({"what": format!("{what} was not named relative to every watched root ({label})"), "missing": missing, "seen": seen}));
+                }
+                let _ = std::fs::remove_file(&path);
+            }
+            drop(rx);
+        }
+        let _ = std::fs::remove_dir_all(&other);
     }
     let _ = std::fs::remove_dir_all(&root);
     rep.print();
